@@ -43,7 +43,7 @@ SHARD_TIMEOUT = {"quick": 600, "thorough": 7200}
 
 
 def shards(tier, seed):
-    n = 1500 if tier == "quick" else 40000
+    n = 1500 if tier == "quick" else 500000
     return [{"kind": "rt", "seed": seed, "shard": i, "n": n} for i in range(16)]
 
 
